@@ -154,6 +154,17 @@ def analyse(facts, tier):
         ok = acc is not None and rets and all(mentions(r['s']['e'], lambda y: y.get('id') == acc[2]) for r in rets)
         left_dec = any(assign_parts(x) and assign_parts(x)[2] == '-=' and short(strip(assign_parts(x)[0]).get('n', '')) == 'left' and acc and show(strip(assign_parts(x)[1])) == acc[0]
                        for b, j, st in cfg.stmts() for x in walk(st['s']))
+        copies = [(b, j) for b, j, st in cfg.stmts() for x in calls_in(st['s']) if short(callee_name(x)) == 'SendStereoAudio']
+        for b, j, st in cfg.returns():
+            if st['s'].get('e') is None or const_of(st['s']['e']) is None:
+                continue
+            if not any(cfg.stmt_before(c, (b, j)) for c in copies):
+                continue
+            gf = guard_facts(fn, b, st)
+            fail = any(f[0] == 'cmp' and f[1] == '==' and const_of(f[3]) == -1 and short(callee_name(strip(f[2]))) == 'SendStereoAudio' for f in gf)
+            obls.append(Obl('C13.R5', fn.name, 'return %s after a copy-out' % show(st['s']['e']), st['loc'], 'discharged' if fail else 'finding',
+                            why='refusal of an unsupported format (nothing was written)' if fail else
+                            'a constant is returned on a path on which earlier periods of this call have already been copied out: the call reports fewer samples than it stored'))
         obls.append(Obl('C13.R5', fn.name, 'return gotten_len', rets[0]['loc'] if rets else fn.loc, 'discharged' if (ok and left_dec) else 'finding',
                         why='gotten_len += %s; left -= the same; return gotten_len' % acc[0] if (ok and left_dec) else 'returned count is not the accumulated copied samples (acc=%s, left decrement matches=%s)' % (acc, left_dec)))
         # -1 from the copy-out becomes 0
@@ -216,6 +227,20 @@ def analyse(facts, tier):
             ok = any('(i * sampleOffset)' in d and 'dstLeft' in d for d in dsts) and any('(i * sampleOffset)' in d and 'dstRight' in d for d in dsts) \
                 and any('src[(2 * i)]' in s_ for s_ in srcs) and any('src[((2 * i) + 1)]' in s_ for s_ in srcs)
             lp = any(b.get('cond') is not None and show(b['cond']) == '(i < frameCount)' for b in h.d['blocks'])
+            # nothing else is written: every store to memory in the helper is one of the two strided stores
+            other = []
+            for b, j, st in h.cfg.stmts():
+                for x in walk(st['s']):
+                    ap = assign_parts(x)
+                    if ap and strip(ap[0]).get('k') in ('UnaryOperator', 'ArraySubscriptExpr', 'MemberExpr'):
+                        d = show(ap[0])
+                        if not ('(i * sampleOffset)' in d and ('dstLeft' in d or 'dstRight' in d)):
+                            other.append((st['loc'], d[:50]))
+                for x in calls_in(st['s']):
+                    if short(callee_name(x)) in ('memcpy', 'memmove', 'memset', 'copy'):
+                        other.append((st['loc'], show(x)[:50]))
+            obls.append(Obl('C13.R3', h.name, 'no store besides the two strided ones', other[0][0] if other else h.loc, 'finding' if other else 'discharged',
+                            why=('%s writes outside the left/right + i*sampleOffset slots: with planar buffers or a stride other than the packed one, samples land in the caller\'s gaps or in the wrong channel' % other[0][1]) if other else 'only *(Dst*)(dstLeft|dstRight + i*sampleOffset) is written'))
             obls.append(Obl('C13.R3', h.name, 'writes frame i at dst + i*sampleOffset from src[2i], src[2i+1]', h.loc, 'discharged' if (ok and lp) else 'finding',
                             why='loop i < frameCount; left/right stores at i*sampleOffset' if (ok and lp) else 'copy helper does not have the required addressing (%s)' % dsts[:2]))
 
